@@ -8,6 +8,12 @@ generator      nine systems x random subsets of supplied components (sufficient 
                vs float columns; a working directory that contains a directory named like the system; a user-written
                relations file; drop tolerance; a separate malformed stream (c21, c77, xc11, no modulus column,
                unknown system, system=None).
+               In EVERY run (counts in `distribution`): supplied all-zero columns — symmetry-allowed (an independent
+               component that vanishes at all volumes) and symmetry-forbidden; relations files given by a RELATIVE and by
+               an ABSOLUTE path in other directories whose base name is a packaged system (other relations inside);
+               non-default `drop_atol` / `residual_atol` through the library, `--drop-atol` through the command, both
+               through the settings-driven caller `apply_symetry_on_elast_data`; component magnitudes BETWEEN the two
+               tolerances; one column set presented in several orders within one process (histories).
 correspondence real `fill_cij` vs the Lean model (`CijModel/Fill.lean`, exact over Rat): decision enum, column names
                and order, all values (1e-9 of the table's scale).
 oracle         the property statement on the real code's outcome, per family (see `oracle`); independent of the
@@ -107,14 +113,45 @@ def run_case(case, **over):
     return fc.run_impl(case["columns"], case["values"], case["system"], case.get("kw"), **over)
 
 
+def run_by_path(case):
+    """`fill_cij(table, PATH)` where PATH leads to a relations file in ANOTHER directory whose base name is a packaged
+    crystal system (`path_name`), holding the relations of `case["system"]`.  variant userfile-rel: the working directory
+    is a scratch directory and PATH is relative (`sub/dir/<name>`); userfile-abs: PATH is absolute, cwd untouched."""
+    import os, shutil, tempfile
+    from cij.util.fill import fill_cij
+    df = fc.make_frame(case["columns"], case["values"])
+    tmp = tempfile.mkdtemp(prefix="c09path_")
+    old = os.getcwd()
+    try:
+        rel = os.path.join(*case["path_dirs"], case["path_name"])
+        full = os.path.join(tmp, rel)
+        os.makedirs(os.path.dirname(full), exist_ok=True)
+        shutil.copyfile(os.path.join(fc.REPO, "cij", "data", "constraints", case["system"]), full)
+        if case["variant"] == "userfile-rel":
+            os.chdir(tmp); arg = rel
+        else:
+            arg = full
+        try:
+            out = fill_cij(df, arg, **dict(case.get("kw") or {}))
+        except BaseException as e:
+            if isinstance(e, (KeyboardInterrupt, SystemExit)): raise
+            return {"status": fc.classify(e), "detail": str(e)[:200]}
+        return {"status": "ok", "columns": [str(c) for c in out.columns],
+                "values": [out[c].to_numpy(dtype=float).tolist() for c in out.columns]}
+    finally:
+        os.chdir(old)
+        shutil.rmtree(tmp, ignore_errors=True)
+
+
 def oracle(case, impl=None):
     """Evaluate the property on the real code for this case.  Returns (impl_outcome, [(what, observed, expected, site)])."""
     fam = case["family"]
-    system, cols, vals, kw = case["system"], case["columns"], case["values"], case.get("kw", {})
-    if impl is None:
+    system, kw = case["system"], case.get("kw", {})
+    cols, vals = case.get("columns", []), case.get("values", [])
+    if impl is None and fam != "history":
         impl = run_case(case, int_cols=case.get("int_cols", ()))
     fails = []
-    st = impl["status"]
+    st = impl["status"] if impl is not None else None
     atol = kw.get("residual_atol", 0.1)
     datol = kw.get("drop_atol", 1e-8)
     ir, ik = kw.get("ignore_residuals", False), kw.get("ignore_rank", False)
@@ -188,13 +225,16 @@ def oracle(case, impl=None):
         # outcome must equal the baseline's, as a map lower-cased name -> values
         base = fc.run_impl(case["base_columns"], case["base_values"], system, kw)
         kind = case["variant"]
-        site = {"int": SITE_INT, "cwd": SITE_UNBOUND, "userfile": SITE_UNBOUND, "userfile-named": "c09:variant:userfile-named"}.get(kind, f"c09:variant:{kind}")
+        site = {"int": SITE_INT, "cwd": SITE_UNBOUND, "userfile": SITE_UNBOUND, "userfile-named": "c09:variant:userfile-named",
+                "userfile-rel": "c09:variant:userfile-by-path", "userfile-abs": "c09:variant:userfile-by-path"}.get(kind, f"c09:variant:{kind}")
         if kind == "cwd":
             impl = run_case(case, cwd_dir=system)
         elif kind == "userfile":
             impl = run_case(case, user_file=True)
         elif kind == "userfile-named":
             impl = run_case(case, user_file=case["user_file_name"])
+        elif kind in ("userfile-rel", "userfile-abs"):
+            impl = run_by_path(case)
         st = impl["status"]
         if st != base["status"]:
             fails.append((f"outcome depends on {kind}", st, base["status"], site))
@@ -207,6 +247,22 @@ def oracle(case, impl=None):
                 for k in a:
                     if max(abs(x - y) for x, y in zip(a[k], b[k])) > RTOL * scale:
                         fails.append((f"values of {k} depend on {kind}", a[k], b[k], site)); break
+    elif fam == "history":
+        impl = None
+        for n, pres in enumerate(case["presentations"]):
+            one = fc.run_impl(pres["columns"], pres["values"], system, kw)
+            if impl is None: impl = one
+            if one["status"] != "ok":
+                fails.append((f"presentation {n + 1} of one column set (order {pres['columns']}) was not accepted", one["status"], "ok",
+                              "c09:history:status")); break
+            T = numpy.array(pres["tensor"]); out = fc.as_map(one)
+            scale = float(numpy.max(numpy.abs(T))) or 1.0
+            bad = [s_ for i, s_ in enumerate(fc.SYMS) if numpy.max(numpy.abs(T[:, i])) >= 10 * datol
+                   and (s_ not in out or float(numpy.max(numpy.abs(numpy.array(out[s_]) - T[:, i]))) > RTOL * scale)]
+            if bad:
+                fails.append((f"presentation {n + 1} of one column set in one process (order {pres['columns']}): components {bad[:4]} are "
+                              f"not the invariant tensor's values", {b_: out.get(b_) for b_ in bad[:2]},
+                              {b_: T[:, fc.SYMS.index(b_)].tolist() for b_ in bad[:2]}, "c09:history:values")); break
     elif fam == "malformed":
         pass    # correspondence only: the property does not say which exception
     else:
@@ -295,6 +351,7 @@ def gen_perturb_cases(rng, n_per_system):
             S |= {int(x) for x in rng.choice(21, size=int(rng.integers(2, 10)), replace=False)}
             S = sorted(S)
             atol = float(rng.choice([0.1, 0.1, 1e-3, 5.0]))
+            if made < 2: atol = 0.1                     # ... with the DEFAULT tolerance, the keyword not passed at all
             j = int(rng.integers(0, len(S)))
             row = int(rng.integers(0, nrows))
             # residual is quadratic in the perturbation of a consistent table: rho(delta) = rho(1) * delta^2
@@ -306,8 +363,10 @@ def gen_perturb_cases(rng, n_per_system):
             cols, vals = table(Tp, S, with_v=True)
             ir, ik = FLAG_COMBOS[int(rng.integers(0, 4))]
             if made < 2: ir, ik = False, False
+            kwp = kw_of(ir, ik, residual_atol=atol)
+            if atol == 0.1 and (made < 2 or rng.integers(0, 2)): kwp.pop("residual_atol")     # the signature's default decides
             case = {"family": "perturb", "system": system, "columns": cols, "values": vals,
-                    "kw": kw_of(ir, ik, residual_atol=atol), "sufficient": True,
+                    "kw": kwp, "sufficient": True,
                     "target_factor": target_factor, "perturbed": fc.SYMS[S[j]], "delta": delta}
             rho = exact_residual(case)
             ratio = float(rho) / atol
@@ -388,6 +447,14 @@ def gen_variant_cases(rng, n_per_system):
             # "a path to a relations file given in place of a system name is used as the relations"
             other = [x for x in fc.SYSTEMS if x != system][int(rng.integers(0, len(fc.SYSTEMS) - 1))]
             cases.append(dict(base, variant="userfile-named", columns=bcols, values=bvals, user_file_name=f"relations/{other}"))
+            # ... the same by a RELATIVE path from a scratch working directory and by an ABSOLUTE path (other directories, the base
+            # name is a packaged system whose own relations differ)
+            other2 = [x for x in fc.SYSTEMS if x != system][int(rng.integers(0, len(fc.SYSTEMS) - 1))]
+            dirs = [["relations"], ["data", "constraints"], ["elsewhere"], ["a", "b", "c"]][int(rng.integers(0, 4))]
+            cases.append(dict(base, variant="userfile-rel" if t % 2 == 0 else "userfile-abs", columns=bcols, values=bvals,
+                              path_dirs=dirs, path_name=other2))
+            cases.append(dict(base, variant="userfile-abs" if t % 2 == 0 else "userfile-rel", columns=bcols, values=bvals,
+                              path_dirs=["constraints"], path_name=other))
     return cases
 
 
@@ -415,8 +482,97 @@ def gen_drop_cases(rng, n):
         cols, vals = table(T, S, with_v=True)
         if t % 4 == 0:
             cols.append("P"); vals.append([0.0] * nrows)               # an all-zero NON-modulus column
-        cases.append({"family": "drop", "system": system, "columns": cols, "values": vals, "kw": {"drop_atol": datol},
+        kwd = {} if datol == 1e-8 and t % 2 else {"drop_atol": datol}      # the default drop tolerance, keyword not passed
+        cases.append({"family": "drop", "system": system, "columns": cols, "values": vals, "kw": kwd,
                       "sufficient": True, "contradiction": "none", "tensor": T.tolist()})
+    return cases
+
+
+def gen_zero_cases(rng, n_per_system):
+    """supplied ALL-ZERO columns.  symmetry-allowed: an independent component (and what is proportional to it) vanishes at every
+    volume and its column is supplied — an explicit zero is data: it counts for the rank and is reproduced (then omitted as a
+    vanishing component); symmetry-forbidden: a component the relations force to 0, supplied as 0.0.  Family `subset`."""
+    cases = []
+    for system in fc.SYSTEMS:
+        info = fc.invariant_basis(system); B = info["B"]; k = info["k"]
+        mins = fc.minimal_sufficient_subsets(system)
+        forbidden = [i for i in range(21) if i not in info["nonzero"]]
+        for t in range(n_per_system):
+            nrows = int(rng.integers(1, 6))
+            for _ in range(200):
+                coef = rng.uniform(20.0, 500.0, size=(nrows, k)) * rng.choice([-1.0, 1.0], size=(1, k))
+                coef[:, int(rng.integers(0, k))] = 0.0
+                T = coef @ B.T
+                zero_allowed = [i for i in info["nonzero"] if not numpy.any(T[:, i])]
+                if zero_allowed and all(numpy.all(numpy.abs(T[:, i]) >= 1.0) for i in info["nonzero"] if i not in zero_allowed): break
+            else:
+                continue
+            cand = [m for m in mins if set(m) & set(zero_allowed)] or mins
+            S = set(cand[int(rng.integers(0, len(cand)))])
+            if not (S & set(zero_allowed)): S.add(zero_allowed[int(rng.integers(0, len(zero_allowed)))])
+            if forbidden:
+                S |= {int(x) for x in rng.choice(forbidden, size=min(len(forbidden), int(rng.integers(1, 4))), replace=False)}
+            if t % 3 == 2 and system != "triclinic":
+                # ... and an INSUFFICIENT one: a needed non-zero class is left out (a zero column is no substitute for it)
+                nzs = [i for i in sorted(S) if i in info["nonzero"] and i not in zero_allowed]
+                while nzs and fc.sufficient(system, sorted(S)):
+                    S.discard(nzs.pop(int(rng.integers(0, len(nzs)))))
+            S = sorted(S)
+            ir, ik = (False, False) if t % 2 == 0 else FLAG_COMBOS[int(rng.integers(0, 4))]
+            cols, vals = table(T, S, with_v=bool(rng.integers(0, 2)))
+            if rng.integers(0, 2): cols = [c.upper() if c != "V" and rng.integers(0, 2) else c for c in cols]
+            cases.append({"family": "subset", "system": system, "columns": cols, "values": vals, "kw": kw_of(ir, ik),
+                          "sufficient": bool(fc.sufficient(system, S)), "contradiction": "none", "tensor": T.tolist(),
+                          "zero": {"allowed": [fc.SYMS[i] for i in S if i in zero_allowed],
+                                   "forbidden": [fc.SYMS[i] for i in S if i in forbidden]}})
+    return cases
+
+
+def gen_midmag_cases(rng, n):
+    """one independent component has a magnitude BETWEEN the two tolerances at every volume (>= 10 drop_atol, <= residual_atol/5):
+    it must be kept and reproduced — through the library with default and non-default tolerances, through `--drop-atol`, and
+    through the settings-driven caller (a caller that confuses the two tolerances drops it).  Family `drop`."""
+    cases = []
+    settings = [({}, 0.01), ({"drop_atol": 1e-3}, 0.02), ({"drop_atol": 1e-3, "residual_atol": 10.0}, 0.5),
+                ({"residual_atol": 2.0}, 0.2), ({"drop_atol": 1e-5, "residual_atol": 0.5}, 0.05)]
+    systems = list(fc.SYSTEMS)
+    for t in range(n):
+        system = systems[int(rng.integers(0, len(systems)))]
+        info = fc.invariant_basis(system); k = info["k"]
+        kw, mag = settings[t % len(settings)]
+        datol = kw.get("drop_atol", 1e-8)
+        nrows = int(rng.integers(1, 5))
+        for _ in range(100):
+            coef = rng.uniform(200.0, 900.0, size=(nrows, k))
+            coef[:, int(rng.integers(0, k))] = mag * rng.uniform(1.0, 1.5, size=nrows) * (1 if rng.integers(0, 2) else -1)
+            T = coef @ info["B"].T
+            mx = numpy.max(numpy.abs(T), axis=0)
+            if all(m == 0 or m >= 10 * datol for m in mx): break
+        else:
+            continue
+        cols, vals = table(T, sorted(info["nonzero"]), with_v=bool(t % 2))
+        cases.append({"family": "drop", "system": system, "columns": cols, "values": vals, "kw": dict(kw), "sufficient": True,
+                      "contradiction": "none", "tensor": T.tolist(), "midmag": mag})
+    return cases
+
+
+def gen_history_cases(rng, n):
+    """ONE column set presented several times within this process, in different column orders and with fresh values each time
+    (a cache keyed by the column set, a remembered row order, …): every presentation must give its own invariant tensor."""
+    cases = []
+    systems = [x for x in fc.SYSTEMS if x != "triclinic"]
+    for t in range(n):
+        system = systems[(t + int(rng.integers(0, len(systems)))) % len(systems)]
+        mins = fc.minimal_sufficient_subsets(system)
+        S = sorted(set(mins[int(rng.integers(0, len(mins)))]) | {int(x) for x in rng.choice(21, size=int(rng.integers(1, 5)), replace=False)})
+        pres = []
+        for n_ in range(int(rng.integers(3, 6))):
+            T = fc.random_invariant(system, int(rng.integers(1, 4)), rng)
+            cols, vals = table(T, S, with_v=True)
+            perm = list(range(len(cols))) if n_ == 0 else [int(i) for i in rng.permutation(len(cols))]
+            if n_ == 1 and perm == list(range(len(cols))): perm = perm[::-1]
+            pres.append({"columns": [cols[i] for i in perm], "values": [vals[i] for i in perm], "tensor": T.tolist()})
+        cases.append({"family": "history", "system": system, "kw": {}, "presentations": pres})
     return cases
 
 
@@ -450,9 +606,9 @@ def gen_fixed_cases():
 # ----------------------------------------------------------------------------- run
 def model_for(case):
     fam = case["family"]
-    exists = fam == "variant" and case["variant"] in ("cwd", "userfile", "userfile-named")
+    exists = fam == "variant" and case["variant"] in ("cwd", "userfile", "userfile-named", "userfile-rel", "userfile-abs")
     user_rows = None
-    if fam == "variant" and case["variant"] in ("userfile", "userfile-named"):
+    if fam == "variant" and case["variant"] in ("userfile", "userfile-named", "userfile-rel", "userfile-abs"):
         user_rows = []
         for co, rhs in fc.file_rows(case["system"]):
             den = 1
@@ -460,33 +616,85 @@ def model_for(case):
             user_rows.append(([int(c * den) for c in co], int(rhs * den), den))
     # the user-file variant hands the real code a PATH (not a packaged system name); the model gets the same kind of name
     sysname = (case.get("user_file_name") or "my_relations.txt") if user_rows is not None else case["system"]
-    return fc.model_op(case["columns"], case["values"], sysname, case.get("kw"), exists=exists, user_rows=user_rows)
+    if fam == "variant" and case["variant"] in ("userfile-rel", "userfile-abs"):
+        sysname = "/".join((["/scratch"] if case["variant"] == "userfile-abs" else []) + list(case["path_dirs"]) + [case["path_name"]])
+    return model_op_kw(case["columns"], case["values"], sysname, case.get("kw"), exists=exists, user_rows=user_rows)
+
+
+def model_op_kw(columns, values, system, kw, **more):
+    """the wire op with ONLY the keywords the case passes: absent ones take the signature's defaults inside the model
+    (`CijModel/FillCall.lean`, proved equal to the translated defaults), as they do in the real call"""
+    op = fc.model_op(columns, values, system, kw, **more)
+    for k in ("ignore_residuals", "ignore_rank", "drop_atol", "residual_atol"):
+        if k not in (kw or {}): op.pop(k, None)
+    return op
+
+
+def ops_of(case):
+    """wire ops of a case: one, or one per presentation of a history"""
+    if case["family"] == "history":
+        return [model_op_kw(p["columns"], p["values"], case["system"], case.get("kw")) for p in case["presentations"]]
+    return [model_for(case)]
+
+
+def count(d, group, key, n=1):
+    d.setdefault(group, {}).setdefault(key, 0); d[group][key] += n
 
 
 def evaluate(ctx: Ctx, res: Result, cases):
-    ops = [model_for(c) for c in cases]
-    models = ctx.driver.ask(ops) if ops else []
-    for case, m in zip(cases, models):
+    per_case = [ops_of(c) for c in cases]
+    flat = [o for ops in per_case for o in ops]
+    answers = ctx.driver.ask(flat) if flat else []
+    pos = 0
+    for case, ops in zip(cases, per_case):
+        models = [fc.decode_model(m) for m in answers[pos:pos + len(ops)]]; pos += len(ops)
         if ctx.time_left() < 30: break
-        model = fc.decode_model(m)
+        model = models[0]
         impl, fails = oracle(case)
         res.evaluations += 1
         fam = case["family"] + (":" + case["variant"] if "variant" in case else "")
         d = res.distribution
-        d.setdefault("families", {}).setdefault(fam, 0); d["families"][fam] += 1
-        d.setdefault("impl_status", {}).setdefault(impl["status"], 0); d["impl_status"][impl["status"]] += 1
-        d.setdefault("systems", {}).setdefault(str(case["system"]), 0); d["systems"][str(case["system"])] += 1
+        count(d, "families", fam)
+        count(d, "impl_status", impl["status"])
+        count(d, "systems", str(case["system"]))
         if "sufficient" in case:
-            k = "sufficient" if case["sufficient"] else "insufficient"
-            d.setdefault("rank", {}).setdefault(k, 0); d["rank"][k] += 1
+            count(d, "rank", "sufficient" if case["sufficient"] else "insufficient")
+        # what the strengthened generators must deliver in every run
+        kw = case.get("kw") or {}
+        if case.get("zero"):
+            count(d, "supplied_all_zero_columns", "cases")
+            count(d, "supplied_all_zero_columns", "symmetry_allowed", len(case["zero"]["allowed"]))
+            count(d, "supplied_all_zero_columns", "symmetry_forbidden", len(case["zero"]["forbidden"]))
+        if case.get("variant") in ("userfile-rel", "userfile-abs", "userfile-named"):
+            count(d, "relations_by_path_named_like_a_packaged_system",
+                  {"userfile-rel": "relative", "userfile-abs": "absolute", "userfile-named": "absolute"}[case["variant"]])
+        if "drop_atol" in kw and kw["drop_atol"] != 1e-8: count(d, "nondefault_tolerances", "library_drop_atol")
+        if "residual_atol" in kw and kw["residual_atol"] != 0.1: count(d, "nondefault_tolerances", "library_residual_atol")
+        if "midmag" in case: count(d, "nondefault_tolerances", "component_between_the_tolerances")
+        if not kw: count(d, "nondefault_tolerances", "no_keyword_at_all(defaults_of_signature_vs_model)")
+        if case["family"] == "perturb" and "residual_atol" not in kw:
+            count(d, "nondefault_tolerances", "default_residual_atol_within_25pct_of_threshold" if case.get("target_factor") in (0.8, 1.25)
+                  else "default_residual_atol_other")
+        if case["family"] == "history":
+            count(d, "column_set_histories", "histories")
+            count(d, "column_set_histories", "presentations", len(case["presentations"]))
+            count(d, "column_set_histories", "distinct_orders", len({tuple(p["columns"]) for p in case["presentations"]}))
         # (the model has no dtype: an integer-typed table is sent as the same numbers)
-        ok, note = fc.compare_outcomes(impl, model, RTOL)
+        if case["family"] == "history":
+            ok, note = True, ""
+            for n_, (pres, m) in enumerate(zip(case["presentations"], models)):
+                one = fc.run_impl(pres["columns"], pres["values"], case["system"], case.get("kw"))
+                ok, note = fc.compare_outcomes(one, m, RTOL)
+                if not ok:
+                    note = f"presentation {n_ + 1}: {note}"; impl, model = one, m; break
+        else:
+            ok, note = fc.compare_outcomes(impl, model, RTOL)
         if ok: res.traces_validated += 1
         else: res.disagreements.append(Disagreement("c09.fill", case, impl.get("status"), model.get("status"), note))
         for what, obs, exp, site in fails:
             res.oracle_failures.append(OracleFailure(what=what, input=case, observed=obs, expected=exp, site=site))
         if len(res.samples) < 5 and fam not in [s.get("family") for s in res.samples]:
-            res.samples.append({"family": fam, "system": case["system"], "columns": case["columns"], "kw": case.get("kw"),
+            res.samples.append({"family": fam, "system": case["system"], "columns": case.get("columns"), "kw": case.get("kw"),
                                 "impl_status": impl["status"], "model_status": model.get("status"),
                                 "impl_columns": impl.get("columns")})
 
@@ -506,10 +714,12 @@ def run_cli(case):
     lines = ["V_0 N cellmass test", "100.0 %d 10.0" % n, " ".join(cols)]
     for r in range(n):
         lines.append(" ".join(repr(float(vals[c][r])) for c in range(len(cols))))
+    # the rest of the file (lattice parameters) must be echoed untouched
+    rest = ["", "lattice parameters"] + ["%d.5 %d.25 %d.125" % (r + 1, r + 2, r + 3) for r in range(n)]
     tmp = tempfile.mkdtemp(prefix="c09cli_")
     try:
         path = os.path.join(tmp, "elast.dat")
-        with open(path, "w") as fp: fp.write("\n".join(lines) + "\n")
+        with open(path, "w") as fp: fp.write("\n".join(lines + rest) + "\n")
         args = ["fill", "-s", case["system"]]
         if kw.get("ignore_residuals"): args.append("--ignore-residuals")
         if kw.get("ignore_rank"): args.append("--ignore-rank")
@@ -522,8 +732,18 @@ def run_cli(case):
                 return {"status": fc.classify(r.exception), "detail": str(r.exception)[:200]}
             return {"status": "error:exit%d" % r.exit_code}
         out = r.stdout.split("\n")
-        df = pandas.read_table(io.StringIO("\n".join(out[2:2 + n + 1]) + "\n"), header=0, index_col=None, sep=r"\s+")
-        return {"status": "ok", "columns": [str(c) for c in df.columns], "values": [df[c].to_numpy(dtype=float).tolist() for c in df.columns]}
+        # what the command printed is an OBSERVATION: header lines and the rest of the file echoed, N + 1 table lines in between
+        if out[:2] != lines[:2]:
+            return {"status": "error:cli-header-not-echoed", "detail": repr(out[:2])[:200]}
+        if out[2 + n + 1:] != rest + [""]:
+            return {"status": "error:cli-rest-of-file-not-echoed", "detail": repr(out[2 + n + 1:])[:200]}
+        try:
+            df = pandas.read_table(io.StringIO("\n".join(out[2:2 + n + 1]) + "\n"), header=0, index_col=None, sep=r"\s+")
+            vals = [df[c].to_numpy(dtype=float).tolist() for c in df.columns]
+            if len(df) != n or any(not math.isfinite(x) for v in vals for x in v): raise ValueError(f"{len(df)} complete rows, expected {n}")
+        except Exception as e:
+            return {"status": "error:cli-table-not-N-rows", "detail": f"{type(e).__name__}: {e}"[:200]}
+        return {"status": "ok", "columns": [str(c) for c in df.columns], "values": vals}
     finally:
         shutil.rmtree(tmp, ignore_errors=True)
 
@@ -536,7 +756,7 @@ def cli_cases(ctx: Ctx, res: Result, cases, cap):
     for case in cases:
         if n >= cap or ctx.time_left() < 30: break
         kw = case.get("kw", {})
-        if case["system"] is None or case["family"] not in ("flags", "subset", "perturb"): continue
+        if case["system"] is None or case["family"] not in ("flags", "subset", "perturb", "drop"): continue
         if any(k not in ("ignore_residuals", "ignore_rank", "drop_atol") for k in kw): continue      # no CLI option for residual_atol
         if not all(isinstance(c, str) and c.strip() and " " not in c for c in case["columns"]): continue
         if case.get("int_cols") or case.get("variant"): continue
@@ -545,6 +765,8 @@ def cli_cases(ctx: Ctx, res: Result, cases, cap):
         cli = run_cli(case)
         n += 1
         res.evaluations += 1
+        if "drop_atol" in kw and kw["drop_atol"] != 1e-8: count(res.distribution, "nondefault_tolerances", "cli_drop_atol")
+        if case.get("zero"): count(res.distribution, "supplied_all_zero_columns", "through_cli")
         if cli["status"] != lib["status"]:
             res.oracle_failures.append(OracleFailure(
                 what=f"`cij fill` with flags {sorted(k for k in ('ignore_residuals', 'ignore_rank') if kw.get(k))}: status {cli['status']}, "
@@ -565,6 +787,70 @@ def cli_cases(ctx: Ctx, res: Result, cases, cap):
     res.distribution["cli_cases"] = res.distribution.get("cli_cases", 0) + n
 
 
+# ----------------------------------------------------------------------------- third observation point: the settings-driven caller
+def run_settings_caller(case):
+    """`apply_symetry_on_elast_data(data, {"system": …, **kw})` (what `cij run` does with the `symmetry` block of the settings) on an
+    ElastData holding the modulus columns of the case.  Returns an outcome in the format of fc.run_impl."""
+    from cij.io.traditional.elast_dat import ElastData, ElastVolumeData, apply_symetry_on_elast_data
+    from cij.util import c_
+    idx, pos = sel_of(case["columns"])
+    n = len(case["values"][0])
+    vols = [ElastVolumeData(100.0 + r, dict((c_(fc.SYMS[i][1:]), float(case["values"][p][r])) for i, p in zip(idx, pos))) for r in range(n)]
+    data = ElastData(100.0, n, 10.0, vols, [])
+    try:
+        apply_symetry_on_elast_data(data, dict(case.get("kw") or {}, system=case["system"]))
+    except BaseException as e:
+        if isinstance(e, (KeyboardInterrupt, SystemExit)): raise
+        return {"status": fc.classify(e), "detail": str(e)[:200]}
+    keys = list(data.volumes[0].static_elastic_modulus.keys())
+    return {"status": "ok", "columns": [f"c{k.v[0]}{k.v[1]}" for k in keys],
+            "values": [[float(v.static_elastic_modulus[k]) for v in data.volumes] for k in keys]}
+
+
+def caller_cases(ctx: Ctx, res: Result, cases, cap):
+    """outcome of the settings-driven caller = outcome the statement prescribes for the same moduli and the same settings (status,
+    set of components, values): only cases on which the library call itself satisfies the statement are used as reference"""
+    n = 0
+    for case in cases:
+        if n >= cap or ctx.time_left() < 30: break
+        if case["system"] is None or case["family"] not in ("flags", "subset", "perturb", "drop"): continue
+        if case.get("int_cols") or case.get("variant"): continue
+        idx, pos = sel_of(case["columns"])
+        if not idx or len(idx) != len([c for c in case["columns"] if c.lower() in fc.SYMS]): continue
+        _, fails = oracle(case)
+        if fails: continue
+        mcols = [fc.SYMS[i] for i in idx]; mvals = [case["values"][p] for p in pos]
+        lib = fc.run_impl(mcols, mvals, case["system"], case.get("kw"))
+        got = run_settings_caller(case)
+        n += 1
+        res.evaluations += 1
+        kw = case.get("kw") or {}
+        count(res.distribution, "nondefault_tolerances", "settings_caller_cases")
+        if ("drop_atol" in kw and kw["drop_atol"] != 1e-8) or ("residual_atol" in kw and kw["residual_atol"] != 0.1):
+            count(res.distribution, "nondefault_tolerances", "settings_caller_nondefault")
+        payload = dict(case, caller=True)
+        if got["status"] != lib["status"]:
+            res.oracle_failures.append(OracleFailure(
+                what=f"apply_symetry_on_elast_data with settings {kw}: status {got['status']}, the statement prescribes {lib['status']}",
+                input=payload, observed=got["status"], expected=lib["status"], site="c09:caller:status"))
+        elif got["status"] == "ok":
+            a, b = fc.as_map(got), fc.as_map(lib)
+            scale = max(fc.table_scale(case["values"]), 1.0)
+            if set(a) != set(b):
+                res.oracle_failures.append(OracleFailure(
+                    what=f"apply_symetry_on_elast_data with settings {kw}: components {sorted(set(a) ^ set(b))} kept/omitted differently "
+                         f"from what the tolerances of these settings prescribe",
+                    input=payload, observed=sorted(a), expected=sorted(b), site="c09:caller:components"))
+            elif any(max(abs(x - y) for x, y in zip(a[k], b[k])) > RTOL * scale for k in a):
+                res.oracle_failures.append(OracleFailure(what=f"apply_symetry_on_elast_data with settings {kw}: different values",
+                                                         input=payload, observed={k: a[k][:2] for k in sorted(a)[:6]},
+                                                         expected={k: b[k][:2] for k in sorted(b)[:6]}, site="c09:caller:values"))
+            else:
+                res.traces_validated += 1
+        else:
+            res.traces_validated += 1
+
+
 def run(ctx: Ctx) -> Result:
     res = Result()
     rng = ctx.rng
@@ -579,6 +865,10 @@ def run(ctx: Ctx) -> Result:
     cases += gen_flag_cases(rng, 6 if big else 2)
     cases += gen_variant_cases(rng, 6 if big else 2)
     cases += gen_drop_cases(rng, 60 if big else 12)
+    zero = gen_zero_cases(rng, 6 if big else 2)
+    mid = gen_midmag_cases(rng, 30 if big else 10)
+    hist = gen_history_cases(rng, 24 if big else 6)
+    cases += zero + mid + hist
     if big:
         sweep = gen_sweep_cases(rng)
         res.distribution["pivot_subset_sweep_cases"] = len(sweep)
@@ -586,7 +876,23 @@ def run(ctx: Ctx) -> Result:
     evaluate(ctx, res, cases)
     flagged = [c for c in cases if c["family"] == "flags"] + [c for c in cases if c["family"] in ("subset", "perturb")]
     cli_cases(ctx, res, flagged, 160 if big else 40)
+    # non-default --drop-atol, magnitudes between the tolerances and supplied all-zero columns through the command as well
+    dropc = [c for c in cases if c["family"] == "drop"]
+    cli_cases(ctx, res, mid + zero[::2] + dropc, 80 if big else 22)
+    # ... and through the settings-driven caller (both tolerances)
+    pert = [c for c in cases if c["family"] == "perturb"]
+    caller_cases(ctx, res, mid + dropc[:8] + pert[:8] + zero[1::2], 120 if big else 34)
+    floor = {"supplied_all_zero_columns": ("symmetry_allowed", "symmetry_forbidden"),
+             "relations_by_path_named_like_a_packaged_system": ("relative", "absolute"),
+             "nondefault_tolerances": ("library_drop_atol", "library_residual_atol", "cli_drop_atol", "settings_caller_nondefault",
+                                       "component_between_the_tolerances"),
+             "column_set_histories": ("histories",)}
+    missing = [f"{g}.{k}" for g, ks in floor.items() for k in ks if not res.distribution.get(g, {}).get(k)]
+    if missing:
+        res.notes.append("GENERATOR FLOOR NOT REACHED (time budget?): " + ", ".join(missing))
     res.distinct_nontrivial = sum(1 for c in cases if c["system"] not in (None, "triclinic"))
+    res.notes.append("op `c09.fill` receives only the keywords a case passes; absent ones are the defaults of CijModel/FillCall.lean "
+                     "(theorem fill_model_is_source_defaults: = the signature's), as in the real call")
     res.notes.append("the model has no dtype: integer-typed tables are sent to it as the same numbers; the int-vs-float clause "
                      "is evaluated by the oracle on the real code")
     return res
@@ -596,6 +902,8 @@ def search(ctx: Ctx, res: Result):
     found = Result()
     rng = numpy.random.Generator(numpy.random.PCG64([ctx.seed, 9009]))
     cases = gen_subset_cases(rng, 12) + gen_perturb_cases(rng, 6) + gen_flag_cases(rng, 3) + gen_drop_cases(rng, 20)
+    extra = gen_zero_cases(rng, 3) + gen_midmag_cases(rng, 15)
+    cases += extra + gen_history_cases(rng, 9) + [c for c in gen_variant_cases(rng, 2) if c["variant"].startswith("userfile")]
     # around the disagreements: the same tables under all four flag combinations
     for d in res.disagreements[:10]:
         c = d.input
@@ -604,7 +912,8 @@ def search(ctx: Ctx, res: Result):
                 kw = dict(c.get("kw", {})); kw.pop("ignore_residuals", None); kw.pop("ignore_rank", None)
                 cases.append(dict(c, kw=dict(kw, **kw_of(ir, ik))))
     evaluate(ctx, found, cases)
-    cli_cases(ctx, found, [c for c in cases if c["family"] == "flags"], 40)
+    cli_cases(ctx, found, [c for c in cases if c["family"] == "flags"] + extra, 60)
+    caller_cases(ctx, found, extra + [c for c in cases if c["family"] in ("drop", "perturb")], 60)
     return found.oracle_failures
 
 
@@ -613,6 +922,10 @@ def replay(ctx: Ctx, payload):
         r = Result()
         case = {k: v for k, v in payload.items() if k != "cli"}
         cli_cases(ctx, r, [case], 1)
+        return r.oracle_failures
+    if payload.get("caller"):
+        r = Result()
+        caller_cases(ctx, r, [{k: v for k, v in payload.items() if k != "caller"}], 1)
         return r.oracle_failures
     _, fails = oracle(payload)
     return [OracleFailure(what=w, input=payload, observed=o, expected=e, site=s) for w, o, e, s in fails]
